@@ -82,10 +82,13 @@ func cmdContinue(p *lang.Process) error {
 		return false
 	}
 
+	// Everything between here and the next iteration has to be cancelled: the
+	// enclosing blocks and the commands that follow them. Find them first...
+	var cancel []*lang.Process
 	proc := p.Parent
 	for {
 		if proc.Name.String() == name && encloses(proc) {
-			return nil
+			break
 		}
 		if proc.Id == scope {
 			return fmt.Errorf(
@@ -94,7 +97,17 @@ func cmdContinue(p *lang.Process) error {
 			)
 		}
 
-		proc.Done()
+		cancel = append(cancel, proc)
 		proc = proc.Next
 	}
+
+	// ...then cancel the last ones first. Cancelling in program order releases
+	// whoever waits for the first of them (eg the consumer of a pipeline this
+	// loop feeds) while the later commands are not cancelled yet, and they
+	// would start running.
+	for i := len(cancel) - 1; i >= 0; i-- {
+		cancel[i].Done()
+	}
+
+	return nil
 }
